@@ -128,7 +128,9 @@ func (s *grpcSpanBatchSender) connect() (error, spanBatchSenderStatus) {
 	log.Debugf("connected to grpc endpoint %s", s.Host)
 	go func() {
 		for {
-			in, err := s.stream.Recv()
+			// stream, not s.stream: this goroutine belongs to the stream
+			// it was started for; a later connect replaces s.stream.
+			in, err := stream.Recv()
 
 			switch err {
 			case nil:
